@@ -48,6 +48,9 @@ def tmpl(k: int, base: int) -> List[Dict[str, Any]]:
     if k == 1:
         return [kineto.cpu_op("aten::b", base + 1, 9, ext=0), kineto.cpu_op("aten::a", base + 2, 2, ext=1),
                 kineto.kernel("k2", base + 3, 1, 7, 6)]
+    if k == 3:  # vocabulary = superset of template 0's and of template 1's
+        return [kineto.cpu_op("aten::b", base + 1, 12, ext=0), kineto.cpu_op("aten::a", base + 2, 2, ext=1),
+                kineto.kernel("k2", base + 5, 1, 9, 6), kineto.kernel("k1", base + 7, 3, 7, 5)]
     return [kineto.cpu_op("aten::a", base + 3, 2, ext=0), kineto.annotation("X", base + 6, 2), kineto.meta_event(base)]
 
 
@@ -101,7 +104,7 @@ def worlds(tier: str, stats: Dict[str, Any]) -> Iterator[Any]:
     stats["transitions"] += 1
     yield dict(mode="hist")
     # (b)
-    for tset in ([0, 1], [1, 2], [0, 1, 2]):
+    for tset in ([0, 1], [1, 2], [0, 3], [0, 1, 2]):
         R = len(tset)
         vocs = [vocab(tmpl(k, E0)) for k in tset]
         for ids in itertools.permutations([0, 1, 2, 7][: R + 1], R):
